@@ -28,6 +28,10 @@ TEXT = {
          "The specification parses the same characters as the code (stop sets, trimming, trailing commas, top-level comma lists, quoting, escapes); every string up to the length bound is replayed under DefaultConfig/EnvConfig/NoopConfig/IgnoreCommas and the value or error/panic outcome compared; JSON documents rendered by the spec (compact, indented) must read back as the data they denote; 5k-100k random documents written by encoding/json are validated by TLC against the same parser."),
  "C19": ("flags", "TLA+ collector state machine (UcfgFlags) composed from the parser, normalisation and merge specifications: TLC checks fold/sticky-error/empty/bare laws; every argument sequence replayed on a real flag.FlagValue; random sequences trace-validated",
          "State = (config, first error); Set(arg) = split at '=', bare key => true, empty value => no-op, malformed => sticky error, else Normalize({key: Parse(value)}) merged with the flag's own policy. Every prefix+argument of the bounded universe is a replayed transition comparing Config() and Error(); random 8-argument sequences are validated by TLC."),
+ "C02": ("varexp", "TLA+ evaluator of ${...} expressions (UcfgVarExp: expression AST, lookup layers root/Env/resolvers, operators, stack of active names): TLC lookup-order invariants; exhaustive replay of expression worlds in crash-isolated children; late binding by split merges",
+         "The specification evaluates every setting of every world (String, typed read, Has, whole Unpack) with the fixed lookup order and operator table; the harness renders each world to real ${} strings, Env configs and Resolve callbacks and compares text, type and error class (cyclic/missing/custom message); the same worlds are rebuilt by two Merge calls in both orders to decide late binding."),
+ "C08": ("varexp", "TLA+ small-step evaluator (UcfgVarExpSteps) checked by TLC for termination under weak fairness + stack bound over all reference graphs; big-step NoFalseCycle invariant; replay of all worlds through Unpack/getters/Has/CountField/Child/FlattenedKeys/CompareConfigs in crash-isolated child processes",
+         "Liveness <>(stack = <<>>) and the stack bound hold for every graph of the universe on the Ideal layer and TLC refutes the listed deviation with the one-setting witness; on the code every world's reads run in child processes (4 MB stack, deadline) so 'did not return' is an observation; cyclic errors must appear exactly where the specification says a name is re-entered."),
 }
 NOTE = "bounded universes (stated in evidence.rule); projection through the public API; TLC/JVM/Go runtime trusted; Ideal layer + named deviations listed in known_findings.json"
 
@@ -41,6 +45,8 @@ m = dict(
                source_commits=[], add_only=True),
     
     engines=[
+        dict(name="varexp", path="spec/UcfgVarExp.tla", serves_properties=["C02", "C08", "C11"],
+             kind_free_text="TLA+ big-step evaluator of variable expansion + small-step UcfgVarExpSteps (liveness); Gen_VarExp; harness/cmd/ucfgconf/fam_varexp.go with crash-isolated child processes (isolate.go)"),
         dict(name="flags", path="spec/UcfgFlags.tla", serves_properties=["C19"],
              kind_free_text="TLA+ flag collector on top of UcfgParseValue+UcfgNormalize+UcfgMerge; Gen_Flags/Trace_Flags; harness/cmd/ucfgconf/fam_flags.go"),
         dict(name="parse", path="spec/UcfgParseValue.tla", serves_properties=["C17", "C07", "C19"],
